@@ -68,13 +68,31 @@ func backendOps(c *Case, d *mapDriver, keys [][]byte, nops int) {
 
 	pickKey := func() []byte { return keys[c.Pick("key", len(keys))] }
 
+	// one case in 25 works on a large population (sizes a 9-key alphabet never reaches)
+	allowBulk := c.Weighted("bulk-case", 24, 1) == 1
+	wChurn := 0
+	if c.Weighted("churn-case", 9, 1) == 1 {
+		wChurn = 3 // one case in ten contains long write/delete histories
+	}
+
 	for i := 0; i < nops; i++ {
 		wCleanup := 0
 		if d.evictable {
 			wCleanup = 2
 		}
 
-		switch c.Weighted("op", 6, 6, 3, 2, 2, 1, 2, 3, 2, 1, 1, wCleanup, 2) {
+		wBulk := 0
+		if allowBulk && !d.bulked {
+			wBulk = 4
+		}
+
+		switch c.Weighted("op", 6, 6, 3, 2, 2, 1, 2, 3, 2, 1, 1, wCleanup, 2, wBulk, wChurn) {
+		case 13: // a large population written at once: sizes that a 9-key alphabet never reaches
+			n := []int{150, 700, 5000, 12000}[c.Weighted("bulk-n", 4, 3, 2, 1)]
+			d.bulk(n, c.Weighted("bulk-same-shard", 2, 1) == 1, callTTLs[c.Pick("ttl", len(callTTLs))])
+			d.compareAll()
+		case 14: // a long history that leaves the contents unchanged
+			d.churn(sameShardPool[c.Pick("churn-key", 3)], []int{20, 300, 1100, 2500}[c.Weighted("churn-n", 3, 2, 2, 1)])
 		case 12: // label a key in the backend's invalidation index / invalidate the label
 			if c.Weighted("label-op", 3, 1) == 0 {
 				d.label(pickKey())
@@ -135,9 +153,11 @@ func backendOps(c *Case, d *mapDriver, keys [][]byte, nops int) {
 			// "every entry is expired" is observable.
 			time.Sleep(time.Nanosecond)
 
+			d.noNoise = true
 			for k := range d.ref.m {
 				d.read([]byte(k), false, false)
 			}
+			d.noNoise = false
 		case 5: // DeleteAll
 			c.Class("deleteall")
 			d.deleteAll()
